@@ -32,13 +32,18 @@ Funcs == {
 
 BadFds   == {-1, -2, -9, -100, -4095, -4096, -65536, -2147483647}
 BadBases == {0, 1, 2, 305419896, 1342308350, 152919584, 2147483647}   \* near-misses of the three PATHRS_PROC_* values
+\* the base is a 64-bit argument (TLC integers have 32 bits: a value is the pair <<upper half, lower half>>, halves as signed
+\* 32-bit numbers): a base is valid only if ALL 64 bits are right -- a valid lower half under a non-zero upper half is unknown
+ValidBases == {1342308351, 152919583, 1051549215}
+BadHis == {1, 2, 2147483647, -1, -2147483647 - 1}
+BadBasePairs == ({0} \X BadBases) \cup (BadHis \X (ValidBases \cup {0, 305419896}))
 BadModes == {"mknod-ifmt-all", "mknod-iflnk", "mknod-bad-type", "mkdir_all-setuid", "mkdir_all-type-bits", "mkdir_all-high-bits"}
 
 ArgCases ==
-    { [f |-> f.name, cls |-> "badfd", val |-> v, which |-> 0, mode |-> ""] : f \in {g \in Funcs : g.fd}, v \in BadFds }
-    \cup { [f |-> f.name, cls |-> "nullpath", val |-> 0, which |-> w, mode |-> ""] : <<f, w>> \in { <<g, k>> \in Funcs \X {1, 2} : k <= g.npaths } }
-    \cup { [f |-> f.name, cls |-> "badbase", val |-> v, which |-> 0, mode |-> ""] : f \in {g \in Funcs : g.base}, v \in BadBases }
-    \cup { [f |-> (IF m \in {"mknod-ifmt-all", "mknod-iflnk", "mknod-bad-type"} THEN "inroot_mknod" ELSE "inroot_mkdir_all"), cls |-> "badmode", val |-> 0, which |-> 0, mode |-> m] : m \in BadModes }
+    { [f |-> f.name, cls |-> "badfd", val |-> v, which |-> 0, mode |-> "", hi |-> 0] : f \in {g \in Funcs : g.fd}, v \in BadFds }
+    \cup { [f |-> f.name, cls |-> "nullpath", val |-> 0, which |-> w, mode |-> "", hi |-> 0] : <<f, w>> \in { <<g, k>> \in Funcs \X {1, 2} : k <= g.npaths } }
+    \cup { [f |-> f.name, cls |-> "badbase", val |-> v, which |-> 0, mode |-> "", hi |-> h] : f \in {g \in Funcs : g.base}, <<h, v>> \in BadBasePairs }
+    \cup { [f |-> (IF m \in {"mknod-ifmt-all", "mknod-iflnk", "mknod-bad-type"} THEN "inroot_mknod" ELSE "inroot_mkdir_all"), cls |-> "badmode", val |-> 0, which |-> 0, mode |-> m, hi |-> 0] : m \in BadModes }
 
 \* the expected outcome of every argument-validation case
 ArgExpect(c) == [errid |-> TRUE, errno |-> "EINVAL", effects |-> FALSE]
